@@ -61,8 +61,8 @@ class Canon:
                 return ('loop', None, n[2])
             if n[0] == 'k' and len(n) == 3:
                 return ('k', n[1], short_ty(n[2]))
-            if n[0] == 'cast' and len(n) == 4 and isinstance(n[3], str):
-                return ('cast', n[1], n[2], short_ty(n[3]))
+            if n[0] == 'cast' and len(n) >= 4 and isinstance(n[3], str):
+                return ('cast', n[1], n[2], short_ty(n[3]), short_ty(n[4]) if len(n) > 4 else None)
             return None
         return effects.rebuild(t, f)
 
